@@ -15,7 +15,7 @@ def run(ctx):
     cov["trusted_base"] = core.trusted(cov)
     return C.finish(ctx, "proof", cov, [
         "the projection theorem is proved end to end through the whole of compile for the affine fragment (C01_projection_affine; premises: record affine_model in Proof/CompileAffine.v) "
-        "and for the arithmetic fragment with abs, min and max (dominated-operand pruning included) together with logic assertions over Boolean variables that are lowered to one affine row (try_lower_affine), where auxiliary variables, queued one-sided / big-M / selector rows and the bound analysis are involved (C01_projection_abs; premises: record abs_model in Proof/CompileAbs.v, "
+        "and for the arithmetic fragment with abs, min and max (dominated-operand pruning included) together with logic assertions over Boolean variables that are lowered to one affine row (try_lower_affine) and comparisons of such formulas with constants (normalised by the logic-constraint test into an assertion, a tautology or a contradiction), where auxiliary variables, queued one-sided / big-M / selector rows and the bound analysis are involved (C01_projection_abs; premises: record abs_model in Proof/CompileAbs.v, "
         "decided by abs_modelb on every tied model); "
         "PARTIAL beyond it: for models with other logic (reified logic values inside arithmetic, assertions that need witnesses) the full theorem (C01_projection_statement) is stated but not proved; proved for them are the affine stage, "
         "every lowering arm's row pattern in both directions, soundness of every bound the rewrites read (C07), value preservation of the pre-processing "
